@@ -86,9 +86,9 @@ impl FileLocation {
         path.set_extension(std::ffi::OsString::from(
             self.extension.as_deref().unwrap_or(default_extension),
         ));
-        if !path.is_absolute() {
-            panic!("TODO: handle this error (path is relative and no working directory set)");
-        }
+        // If the VM has no working directory a relative path stays relative.
+        // The file system decides whether it can be read; if not, the caller
+        // reports the usual "could not read" error.
         path
     }
 }
